@@ -52,6 +52,20 @@ CLAIMED = {
         "note": "Single-threaded build; callee behaviour of ncmpio_cancel/ncmpio_free_NC is not re-derived here.",
         "design_ref": "DESIGN.md section 3 / C17, rule R3 (clauses 1, 4, 5)",
     },
+    "C05": {
+        "technique": "typestate / dominance rules on every store to NC.numrecs and every ncmpio_write_numrecs call "
+                     "(path-sensitive abstract interpretation with event flags), call-graph reachability of the "
+                     "synchronisation points, loop-range pairing of the request queues",
+        "text": "Decides seven structural necessary conditions: after each header update of the record count every "
+                "path makes the in-memory count >= the written value on all ranks; the written value is "
+                "Allreduce(MAX)-derived when nprocs > 1 (incl. the do_io[3] slot of the wait path); each of the ~13 "
+                "stores to NC.numrecs is guarded old<new / MAX-reduced / a listed initialisation (monotone); growth "
+                "without a header write marks NC_NDIRTY; a put ending with NC_ERANGE still grows the count; "
+                "end_indep_data/sync/redef/close reach ncmpio_sync_numrecs; the newnumrecs scan covers the whole "
+                "pending queue. Equality of the count across ranks at run time and the on-disk value are not decided.",
+        "note": "assume_mpi_ok for communication calls; field NC.numrecs identified by struct/field identity from clang.",
+        "design_ref": "DESIGN.md section 3 / C05",
+    },
 }
 
 NA_REASON = {
